@@ -131,7 +131,25 @@ class SimSocket:
             self.rx[0] = seg[n:]
             return seg[:n]
 
+    def _peek(self, n):
+        """MSG_PEEK: what recv(n) would return, without consuming it (pending errors are not raised by a peek
+        of data that precedes them; an empty queue means "would block")"""
+        for seg in self.rx:
+            if seg is EOF:
+                return b""
+            if seg is STALL:
+                raise BlockingIOError(errno.EAGAIN, "would block")
+            if isinstance(seg, BaseException):
+                raise seg
+            if seg:
+                return bytes(seg[:n])
+        if self.eof:
+            return b""
+        raise BlockingIOError(errno.EAGAIN, "would block")
+
     def recv(self, n, flags=0):
+        if flags & socket.MSG_PEEK:
+            return self._peek(n)
         return self._next(n)
 
     def recv_into(self, buf, nbytes=0, flags=0):
@@ -153,6 +171,9 @@ class SimSocket:
         if not self.closed:
             self.closed = True
             self.net.log.append(("close", self.sid))
+            hook = getattr(self.net.server, "on_close", None)
+            if hook is not None:
+                hook(self)
 
     def queue(self, segments):
         for s in segments:
